@@ -246,6 +246,14 @@ def pair(prefix, k):
     return _produce("pair", "%s|%s" % (prefix, k))
 
 
+@m.memento_function(version="nb1")
+def window(prefix, k):
+    """An element whose body evaluates a batch of its own (three calls of pair: a rolling window)."""
+    REC.hit("window", prefix, k)
+    res = pair.call_batch([{"prefix": prefix, "k": k + i} for i in range(3)], raise_first_exception=False)
+    return [r if not isinstance(r, Exception) else "exc:" + type(r).__name__ for r in res]
+
+
 @m.memento_function(version="b3")
 def pair3(prefix, k, tag="t0", scale=1):
     """Like pair, with two optional parameters (batch elements may or may not name them)."""
